@@ -64,7 +64,8 @@ CM_CLASS = ["tp", "tn", "fp", "fn", "p", "n", "top", "ton", "tpr", "tnr", "fpr",
 CM_ALIAS = {"tar": "tpr", "frr": "fnr", "trr": "tnr", "far": "fpr", "acceptance_rate": "topr", "rejection_rate": "tonr"}
 CM_CI = ["tpr_ci", "tnr_ci", "fpr_ci", "fnr_ci"]
 CM_CI_ALIAS = {"tar_ci": "tpr_ci", "frr_ci": "fnr_ci", "trr_ci": "tnr_ci", "far_ci": "fpr_ci"}
-SHAPES = [[], [], [1], [3], [5], [0], [2, 2], [2, 3], [2, 0, 3], [2, 1, 2], [1, 1, 1]]
+SHAPES = [[], [], [1], [3], [5], [0], [2, 2], [2, 3], [2, 0, 3], [2, 1, 2], [1, 1, 1],
+          [130], [16, 16], [4, 5, 8], [257]]  # large enough to take any size-dependent fast path
 
 
 # --------------------------------------------------------------------------
